@@ -254,10 +254,13 @@ def sim_step(orig, self, step_size=EventTime(1, EventTime.Unit.US)):
     nxt = self._event_queue.peek()
     running = [[un(t), us(t.remaining_time), t.state.name] for t in self._worker_pools.get_placed_tasks()]
     LOG.append(["step", us(self._simulator_time), d, us(nxt.time) if nxt is not None else None, running])
+    # watchdog on SIMULATED progress (not on wall-clock time): the clock must advance within a bounded number of
+    # loop iterations (generated worlds handle at most a few hundred events per instant)
     if d == 0:
         CUR["zero_steps"] += 1
-        if CUR["zero_steps"] > 3000:
-            raise Livelock("more than 3000 consecutive zero-length clock steps at time %s" % us(self._simulator_time))
+        if CUR["zero_steps"] > 20000:
+            raise Livelock("more than 20000 consecutive loop iterations without the clock advancing, at time %s"
+                           % us(self._simulator_time))
     else:
         CUR["zero_steps"] = 0
     return orig(self, step_size)
@@ -266,7 +269,6 @@ def sim_step(orig, self, step_size=EventTime(1, EventTime.Unit.US)):
 def sim_handle(orig, self, event):
     pend = [[us(e.time), e.event_type.name, un(e.task)] for e in self._event_queue._event_queue]
     LOG.append(["handle", us(event.time), event.event_type.name, un(event.task), us(self._simulator_time), pend])
-    CUR["zero_steps"] = 0 if event.event_type != EventType.TASK_PLACEMENT else CUR["zero_steps"]
     r = orig(self, event)
     if event.event_type == EventType.UPDATE_WORKLOAD:
         note_graphs(self._workload)
@@ -322,6 +324,42 @@ wrap(Simulator, "_Simulator__get_next_scheduler_event", sim_next_sched)
 wrap(Simulator, "_Simulator__step", sim_step)
 wrap(Simulator, "_Simulator__handle_event", sim_handle)
 
+# ---------------------------------------------------------------- the simulator's event queue
+def qkey(e):
+    return [us(e.time), e.event_type.name, un(e.task)]
+
+
+def q_add(orig, self, event):
+    if CUR["sim"] is not None and self is CUR["sim"]._event_queue:
+        LOG.append(["qpush"] + qkey(event))
+    return orig(self, event)
+
+
+def q_next(orig, self):
+    e = orig(self)
+    if CUR["sim"] is not None and self is CUR["sim"]._event_queue:
+        LOG.append(["qpop"] + qkey(e))
+    return e
+
+
+def q_remove(orig, self, event):
+    if CUR["sim"] is not None and self is CUR["sim"]._event_queue:
+        LOG.append(["qremove"] + qkey(event))
+    return orig(self, event)
+
+
+def q_reheap(orig, self):
+    r = orig(self)
+    if CUR["sim"] is not None and self is CUR["sim"]._event_queue:
+        LOG.append(["qsync", [qkey(e) for e in self._event_queue]])
+    return r
+
+
+wrap(EventQueue, "add_event", q_add)
+wrap(EventQueue, "next", q_next)
+wrap(EventQueue, "remove_event", q_remove)
+wrap(EventQueue, "reheapify", q_reheap)
+
 _orig_sim_init = Simulator.__init__
 
 
@@ -339,6 +377,8 @@ def sim_init(self, *a, **k):
             ws.append([w.name, [[r.name, r.id, q] for r, q in w.resources.resources]])
         cluster.append([pool.name, pool.id, ws])
     LOG.append(["cluster", cluster])
+    for e in self._event_queue._event_queue:
+        LOG.append(["qpush"] + qkey(e))
 
 
 Simulator.__init__ = sim_init
@@ -407,7 +447,7 @@ def run_world(world, tmpdir):
             sched_wrap(c)
     status, err = "ended", None
     signal.signal(signal.SIGALRM, alarm)
-    signal.alarm(int(world.get("wall_limit", 10)))
+    signal.alarm(int(world.get("wall_limit", 120)))
     try:
         erdos_main.main([])
     except Livelock as e:
